@@ -1507,6 +1507,9 @@ func (o *w3Out) write(w *w3World, path string, nonsafe []string, agree []string,
 		sb.WriteString("(* the harness's copy of each row agrees with the table *)\n")
 		sb.WriteString("Definition harness_rows : list (mkey * req) := [\n" + strings.Join(agree, ";\n") + "\n].\n")
 		sb.WriteString("Definition M_agree := Eval vm_compute in failures_from 0 (map check_agree harness_rows).\nPrint M_agree.\n")
+		sb.WriteString("(* how many rows have a proved inertness theorem (Props/C03.v C03_models_cover) *)\n")
+		sb.WriteString("From Verif Require Props.C03.\n")
+		sb.WriteString("Definition proved_vs_table := Eval vm_compute in (length C03.proved_rows, length table).\nPrint proved_vs_table.\n")
 		sb.WriteString("(* closed form of the coverage statement: fails to type-check when a method has no row *)\n")
 		sb.WriteString("Definition covered : forallb (fun k => match required k with Some _ => true | None => false end) nonsafe_methods = true := eq_refl.\n")
 	}
@@ -1632,6 +1635,17 @@ func TestC03(t *testing.T) {
 	st.Extra["safe_methods_invoked"] = safeN
 	st.Extra["safe_methods_faulted_on_default_arguments"] = safeFaults
 	st.Extra["table_rows"] = len(table)
+	// rows with a machine-checked inertness theorem: entries of proved_rows in Props/C03.v
+	if src, err := os.ReadFile(filepath.Join(envOr("VERIF_COQ", "/verif/coq"), "Props", "C03.v")); err == nil {
+		txt := string(src)
+		if i := strings.Index(txt, "Definition proved_rows"); i >= 0 {
+			if j := strings.Index(txt[i:], "]."); j >= 0 {
+				proved := strings.Count(txt[i:i+j], "\n  ((K")
+				st.Extra["rows_with_proved_inertness"] = proved
+				st.Extra["rows_swept_only_or_open"] = len(table) - proved
+			}
+		}
+	}
 	st.Extra["seconds"] = time.Since(t0).Seconds()
 	st.Extra["corpus"] = "neofs (notary-disabled) setConfig by a stranger runs first on every chain (defect F5, fixed by 13a1b83)"
 	// the gravest first: an effect without the required witnesses
